@@ -581,3 +581,58 @@ def nth_table(ctx, rule):
                 rule.violation(f'parse_pseudo_nth {name}({text})', 'soupsieve/css_parser.py (parse_pseudo_nth)',
                                f'{name}({text}) builds the nth record(s) {rec}; the An+B it denotes is {want} (a, n, b, of_type, last)')
                 return
+
+
+# ---- parameterless pseudo-classes: what each name does to the selector under construction ------------------------------
+def pseudo_table(ctx) -> dict:
+    """name -> {'flags', 'consts', 'nth', 'is_html', 'raises'} by interpreting CSSParser.parse_pseudo_class on the token
+    `:name` (no parenthesis) for every name of PSEUDO_SIMPLE, whatever method the work is delegated to."""
+    def build():
+        out = {}
+        simple = ctx.consts.const('css_parser', 'PSEUDO_SIMPLE')
+        for name in sorted(simple):
+            rec = []
+
+            def rec_nth(a_, n_, b_, ot, la, sel_, _r=rec):
+                _r.append((a_, n_, b_, ot, la))
+                return Obj(_name='SelectorNth')
+            sel = fresh_sel()
+            m = match_obj({'name': name, 'open': None})
+            row = {'flags': 0, 'consts': [], 'nth': rec, 'is_html': None, 'raises': None, 'other': []}
+            try:
+                res = call_function(ctx, 'css_parser.CSSParser.parse_pseudo_class', [sel, m, False, iter(()), False], {},
+                                    {'ct.SelectorNth': rec_nth}, parser_obj())
+                row['is_html'] = bool(res[1]) if isinstance(res, (tuple, list)) and len(res) == 2 else None
+            except Raised as e:
+                row['raises'] = e.exc_name
+            except Unsupported as e:
+                raise AnalysisError(f'parse_pseudo_class({name}): outside the evaluable fragment: {e}')
+            row['flags'] = sel.get('flags')
+            for s in sel.get('selectors'):
+                f = object.__getattribute__(s, '_fields') if isinstance(s, Obj) else {}
+                row['consts'].append(f.get('__const__', repr(s)))
+            for fld in ('ids', 'classes', 'attributes', 'relations', 'contains', 'lang'):
+                if sel.get(fld):
+                    row['other'].append(fld)
+            if sel.get('tag') is not None or sel.get('no_match') or sel.get('rel_type') is not None:
+                row['other'].append('tag/no_match/rel_type')
+            out[name] = row
+        return out
+    return ctx.get('pseudo_table', build)
+
+
+def const_flags(ctx) -> dict:
+    """CSS_* selector constants of css_parser: name -> flags they were compiled with (0 if none)."""
+    src, inv = ctx.src, ctx.consts
+    pmod = src.mod('css_parser')
+    from ..srcmodel import call_name
+    out = {}
+    for st in pmod.tree.body:
+        if isinstance(st, ast.Assign) and isinstance(st.targets[0], ast.Name) and st.targets[0].id.startswith('CSS_'):
+            for c in ast.walk(st.value):
+                if isinstance(c, ast.Call) and call_name(c).endswith('process_selectors'):
+                    out[st.targets[0].id] = 0
+                    for k in c.keywords:
+                        if k.arg == 'flags':
+                            out[st.targets[0].id] = inv.folder.try_ev('css_parser', k.value, default=0)
+    return out
